@@ -32,6 +32,7 @@ struct Gen<'a, R: RoleType, T: IsPacketId> {
     force_sp: Option<bool>,      // Session Present flag of the next CONNACK (either direction)
     force_rc: Option<u8>,        // return / reason code of the next CONNACK (either direction)
     force_own_tam: Option<u16>,  // the Topic Alias Maximum WE announce in the next handshake
+    force_peer_rm: Option<u16>,  // the Receive Maximum the PEER announces in the next handshake
 }
 
 impl<'a, R: RoleType, T: IsPacketId> Gen<'a, R, T> {
@@ -137,6 +138,10 @@ impl<'a, R: RoleType, T: IsPacketId> Gen<'a, R, T> {
                 ps.retain(|p| !matches!(p, P::U32(39, _)));
                 ps.push(P::U32(39, m));
             }
+            if let Some(m) = self.force_peer_rm {
+                ps.retain(|p| !matches!(p, P::U16(33, _)));
+                ps.push(P::U16(33, m));
+            }
             if let Some(t) = self.force_peer_tam {
                 ps.retain(|p| !matches!(p, P::U16(34, _)));
                 ps.push(P::U16(34, t));
@@ -190,6 +195,9 @@ impl<'a, R: RoleType, T: IsPacketId> Gen<'a, R, T> {
                 } else {
                     self.recv(b);
                 }
+                if v == 5 && self.status() == "C" && self.rng.chance(1, 2) {
+                    self.op("vacancy".into());
+                }
             }
         } else {
             let v = self.ver();
@@ -225,6 +233,9 @@ impl<'a, R: RoleType, T: IsPacketId> Gen<'a, R, T> {
                     ps.push(P::U16(33, rm));
                 }
                 self.op(format!("send {} {}", v, hex(&w_connack(v, sp, rc, &ps))));
+                if v == 5 && self.status() == "C" && self.rng.chance(1, 2) {
+                    self.op("vacancy".into());
+                }
             }
         }
     }
@@ -670,7 +681,8 @@ impl<'a, R: RoleType, T: IsPacketId> Gen<'a, R, T> {
     fn misc_restore(&mut self) {
         let v = if self.s.version() == 0 { 5 } else { self.s.version() };
         let pw = self.pw();
-        if self.rng.chance(1, 2) {
+        // (stored packets must be of the connection's version: an undetermined object has none yet)
+        if self.rng.chance(1, 2) || (self.legal && self.s.version() == 0) {
             let ids = *self.rng.pick(&["-", "1", "1,2", "3"]);
             self.op(format!("restore_h {ids}"));
         } else {
@@ -838,6 +850,7 @@ fn walk<R: RoleType, T: IsPacketId>(role: &'static str, ver: u8, steps: usize, r
         force_sp: None,
         force_rc: None,
         force_own_tam: None,
+        force_peer_rm: None,
     };
     // options
     for f in ["off", "apr", "aping", "amap", "arep"] {
@@ -1034,10 +1047,15 @@ fn walk<R: RoleType, T: IsPacketId>(role: &'static str, ver: u8, steps: usize, r
             g.op("closed".into());
             g.my_ids.clear();
             let base = *g.rng.pick(&sizes);
-            g.force_peer_mps = Some((base as i64 + *g.rng.pick(&[-1i64, 0, 1])).max(1) as u32);
+            if g.rng.chance(2, 3) {
+                g.force_peer_mps = Some((base as i64 + *g.rng.pick(&[-1i64, 0, 1])).max(1) as u32);
+            }
+            g.force_peer_rm = Some(*g.rng.pick(&[2u16, 5, 10]));
             g.force_clean = Some(false);
             g.handshake();
             g.force_peer_mps = None;
+            g.force_peer_rm = None;
+            g.op("vacancy".into());
         }
         g.inflight.clear();
         g.force_ok = false;
@@ -1053,7 +1071,7 @@ fn walk<R: RoleType, T: IsPacketId>(role: &'static str, ver: u8, steps: usize, r
         g.force_ok = true;
         g.force_persist = g.rng.chance(2, 3);
         g.force_clean = Some(g.rng.chance(1, 2));
-        g.force_own_rm = Some(*g.rng.pick(&[2u16, 10]));
+        g.force_own_rm = Some(*g.rng.pick(&[1u16, 2, 2, 10]));
         g.force_own_tam = Some(2);
         g.handshake();
         g.force_clean = Some(false);
@@ -1066,7 +1084,7 @@ fn walk<R: RoleType, T: IsPacketId>(role: &'static str, ver: u8, steps: usize, r
                 }
                 break;
             }
-            let id = *g.rng.pick(&[1u64, 2]);
+            let id = *g.rng.pick(&[1u64, 1, 2, 2, 3]);
             match g.rng.below(7) {
                 0 | 1 | 2 => {
                     let dup = g.rng.chance(1, 2);
@@ -1152,6 +1170,44 @@ fn walk<R: RoleType, T: IsPacketId>(role: &'static str, ver: u8, steps: usize, r
         g.force_persist = false;
         g.force_clean = None;
     }
+    if !g.started && g.legal && g.s.version() != 0 && g.rng.chance(1, 8) {
+        // directed: a malformed export (the same identifier in entries of different kinds, QoS 0
+        // entries) is restored, the session resumed, and the peer acknowledges every kind
+        let v = g.s.version();
+        let pw = g.pw();
+        let mut items = vec![];
+        for _ in 0..(2 + g.rng.below(3)) {
+            let id = *g.rng.pick(&[1u64, 1, 2]);
+            let b = match g.rng.below(5) {
+                0 | 1 => w_ack(v, pw, 6, id, None, None),
+                2 => w_publish(v, pw, 1, true, false, b"a", id, &[], b"pl"),
+                3 => w_publish(v, pw, 2, true, false, b"a", id, &[], b"pl"),
+                _ => w_publish(v, pw, 0, false, false, b"a", 0, &[], b"q0"),
+            };
+            items.push(format!("{}:{}", v, hex(&b)));
+        }
+        g.op(format!("restore_p {}", items.join(",")));
+        g.op("stored".into());
+        g.force_ok = true;
+        g.force_persist = true;
+        g.force_clean = Some(false);
+        g.handshake();
+        g.force_ok = false;
+        g.force_persist = false;
+        g.force_clean = None;
+        for _ in 0..4 {
+            if g.status() != "C" {
+                break;
+            }
+            let id = *g.rng.pick(&[1u64, 2]);
+            let nib = *g.rng.pick(&[4u8, 5, 7]);
+            g.op(format!("recv {}", hex(&w_ack(v, pw, nib, id, None, None))));
+        }
+        if g.status() == "C" {
+            g.send_publish();
+            g.send_publish();
+        }
+    }
     if !g.started && g.rng.chance(1, 6) {
         // resume from an export made by a previous process (before any connection of this object)
         for _ in 0..2 {
@@ -1202,7 +1258,7 @@ fn reuse_trial<R: RoleType, T: IsPacketId>(role: &'static str, ver: u8, steps: u
     let focus = rng.below(6) as u8;
     let mut g = Gen::<R, T> {
         s: Sess::new(ver), rng, role, my_ids: vec![], inflight: vec![], rel_wait: vec![], peer_pubs: vec![], subs: vec![],
-        peer_mps: None, focus, legal: true, started: false, force_clean: None, force_ok: false, force_persist: false, force_ska: None, force_own_rm: None, force_peer_mps: None, force_peer_tam: None, boundary: false, plain_pub: false, force_sp: None, force_rc: None, force_own_tam: None,
+        peer_mps: None, focus, legal: true, started: false, force_clean: None, force_ok: false, force_persist: false, force_ska: None, force_own_rm: None, force_peer_mps: None, force_peer_tam: None, boundary: false, plain_pub: false, force_sp: None, force_rc: None, force_own_tam: None, force_peer_rm: None,
     };
     for f in ["off", "apr", "aping", "amap", "arep"] {
         if g.rng.chance(2, 5) {
@@ -1335,7 +1391,7 @@ fn reuse_trial<R: RoleType, T: IsPacketId>(role: &'static str, ver: u8, steps: u
 fn restore_trial<R: RoleType, T: IsPacketId>(role: &'static str, ver: u8, steps: usize, rng: &mut Rng, name: &str, out: &mut dyn Write) -> bool {
     let mut g = Gen::<R, T> {
         s: Sess::new(ver), rng, role, my_ids: vec![], inflight: vec![], rel_wait: vec![], peer_pubs: vec![], subs: vec![],
-        peer_mps: None, focus: 1, legal: true, started: false, force_clean: None, force_ok: false, force_persist: false, force_ska: None, force_own_rm: None, force_peer_mps: None, force_peer_tam: None, boundary: false, plain_pub: false, force_sp: None, force_rc: None, force_own_tam: None,
+        peer_mps: None, focus: 1, legal: true, started: false, force_clean: None, force_ok: false, force_persist: false, force_ska: None, force_own_rm: None, force_peer_mps: None, force_peer_tam: None, boundary: false, plain_pub: false, force_sp: None, force_rc: None, force_own_tam: None, force_peer_rm: None,
     };
     g.op("set apr 1".into());
     for f in ["off", "aping", "amap", "arep"] {
@@ -1480,7 +1536,7 @@ fn undet_trial<R: RoleType, T: IsPacketId>(role: &'static str, steps: usize, rng
     let focus = rng.below(6) as u8;
     let mut g = Gen::<R, T> {
         s: Sess::new(0), rng, role, my_ids: vec![], inflight: vec![], rel_wait: vec![], peer_pubs: vec![], subs: vec![],
-        peer_mps: None, focus, legal: true, started: false, force_clean: None, force_ok: false, force_persist: false, force_ska: None, force_own_rm: None, force_peer_mps: None, force_peer_tam: None, boundary: false, plain_pub: false, force_sp: None, force_rc: None, force_own_tam: None,
+        peer_mps: None, focus, legal: true, started: false, force_clean: None, force_ok: false, force_persist: false, force_ska: None, force_own_rm: None, force_peer_mps: None, force_peer_tam: None, boundary: false, plain_pub: false, force_sp: None, force_rc: None, force_own_tam: None, force_peer_rm: None,
     };
     let mut options = vec![];
     for f in ["off", "apr", "aping", "amap", "arep"] {
